@@ -94,7 +94,116 @@ fn disagreement(imp: &mut Impl, model: &mut Model, p: &Program, st: &Style, opt:
     if m == "(fuel)" || m.starts_with("(stuck") || m.starts_with("(err malformed") {
         return None;
     }
-    if m != oc { Some((m, oc)) } else { None }
+    if m != oc {
+        if opt && m.starts_with("(err arith") {
+            // permitted only if the unoptimised run is faithful and the skipped operations are unused
+            let off = imp.run(p, &src, false).canonical();
+            if off == m && permitted_arith_skip(model, p, &oc, 3).is_some() {
+                return None;
+            }
+        }
+        Some((m, oc))
+    } else {
+        None
+    }
+}
+
+/// Property C04 permits exactly one difference between an optimised run and the reference
+/// semantics: "a built-in arithmetic operation whose result is never used may be skipped, so
+/// that its overflow or division-by-zero failure does not occur".  Decision procedure for an
+/// optimiser-ON run whose reference outcome is the Arith failure:
+///   find the checked-arithmetic node N (`#Int+ - * /`, `#Byte+ - * /`) such that
+///     (a) it is the operation that fails (located with marker failures, see below),
+///     (b) its result is never used: both P[N := 0] and P[N := 1] have the implementation's outcome
+///         as reference outcome, directly or after further permitted skips (at most 3 deep) — a
+///         use by an operation that is itself unused and skipped does not count.
+/// Returns the program with the skipped operations replaced by a literal.  The unoptimised run
+/// of the same program must still match the reference exactly (checked by the caller).
+fn permitted_arith_skip(model: &mut Model, p: &Program, impl_out: &str, depth: u32) -> Option<Program> {
+    let base = model.eval(&mg::sexp::program_to_sexp(p));
+    if !base.starts_with("(err arith") {
+        return None;
+    }
+    // checked-arithmetic nodes: (pre-order index, Int?, sub-expression)
+    let mut nodes: Vec<(usize, bool, Expr)> = vec![];
+    let mut k = 0usize;
+    p.expr.visit(&mut |e| {
+        if let Expr::Prim(op, ..) = e {
+            if !op.is_cmp() {
+                nodes.push((k, op.is_int(), e.clone()));
+            }
+        }
+        k += 1;
+    });
+    if nodes.len() > 300 {
+        return None;
+    }
+    let with = |idx: usize, e: &Expr| Program { types: p.types.clone(), expr: mg::generate::replace_subexpr(&p.expr, idx, e), ty: p.ty.clone() };
+    // Which operation fails?  A node is *started* before the failure when replacing it by a
+    // marker failure surfaces the marker; it *completed* before the failure when a marker placed
+    // right after it surfaces.  The failing operation is started but not completed, and so are
+    // the operations it is (dynamically) nested in; candidates are the innermost such nodes.
+    let started_mark = Expr::Error("~s~".into());
+    let mut open: Vec<(usize, bool, usize)> = vec![]; // (index, Int?, subtree size)
+    for (idx, is_int, sub) in &nodes {
+        let s_out = model.eval(&mg::sexp::program_to_sexp(&with(*idx, &started_mark)));
+        if !s_out.starts_with("(err explicit 126 115 126 ") {
+            continue;
+        }
+        let after = Expr::Let(Pat::Var("m_".into()), Box::new(sub.clone()), Box::new(Expr::Error("~c~".into())));
+        let c_out = model.eval(&mg::sexp::program_to_sexp(&with(*idx, &after)));
+        if c_out.starts_with("(err explicit 126 99 126 ") {
+            continue;
+        }
+        open.push((*idx, *is_int, sub.size()));
+    }
+    // innermost first; an enclosing operation is a candidate too (`0 #Int/ (0 #Int/ 0)` unused:
+    // the inner result is used only by an operation that is skipped itself), provided everything
+    // it encloses is built-in arithmetic or cannot fail / have an effect (no call, match, error, eff)
+    fn arith_only(e: &Expr) -> bool {
+        let mut ok = true;
+        e.visit(&mut |x| match x {
+            // besides arithmetic: constructs that can neither fail nor have an effect
+            Expr::Lit(_) | Expr::Var(_) | Expr::Prim(..) | Expr::Ann(..) | Expr::Record(..) | Expr::Proj(..) | Expr::Tuple(_) | Expr::Con(..)
+            | Expr::Array(_) | Expr::ArrayLen(_) | Expr::Lam(..) | Expr::If(..) | Expr::And(..) | Expr::Or(..) | Expr::Seq(..) => {}
+            Expr::Let(Pat::Var(_), ..) | Expr::Let(Pat::Wild, ..) => {}
+            _ => ok = false,
+        });
+        ok
+    }
+    let innermost: Vec<usize> = open.iter().filter(|(i, _, sz)| !open.iter().any(|(j, _, _)| *j > *i && *j < *i + *sz)).map(|(i, _, _)| *i).collect();
+    let mut candidates: Vec<(usize, bool, usize)> = open
+        .iter()
+        .filter(|(i, _, sz)| innermost.contains(i) || nodes.iter().any(|(j, _, sub)| j == i && arith_only(sub) && *sz > 0))
+        .cloned()
+        .collect();
+    candidates.sort_by_key(|(_, _, sz)| *sz);
+    // [reach q]: the reference outcome of q is the implementation's, possibly after further
+    // permitted skips
+    fn reach(model: &mut Model, q: Program, impl_out: &str, depth: u32) -> Option<Program> {
+        let m = model.eval(&mg::sexp::program_to_sexp(&q));
+        if m == impl_out {
+            return Some(q);
+        }
+        if depth > 0 && m.starts_with("(err arith") {
+            return permitted_arith_skip(model, &q, impl_out, depth - 1);
+        }
+        None
+    }
+    for (idx, is_int, _) in candidates {
+        let lit = |n: i64| if is_int { Expr::Lit(Lit::Int(n)) } else { Expr::Lit(Lit::Byte(n as u8)) };
+        // the result of the operation is never used: whatever it is (two samples), the rest of
+        // the program behaves like the implementation, where "uses" by operations that are
+        // themselves unused and skipped do not count
+        let r0 = reach(model, with(idx, &lit(0)), impl_out, depth);
+        if r0.is_none() {
+            continue;
+        }
+        if reach(model, with(idx, &lit(1)), impl_out, depth).is_some() {
+            return r0;
+        }
+    }
+    None
 }
 
 fn shrink(imp: &mut Impl, model: &mut Model, p: &Program, st: &Style, opt: bool) -> (Program, u32) {
@@ -113,7 +222,9 @@ fn shrink(imp: &mut Impl, model: &mut Model, p: &Program, st: &Style, opt: bool)
                 break;
             }
             attempts += 1;
-            if attempts > 6000 {
+            // candidates of an optimiser-on Arith disagreement each run the permitted-skip search
+            let cap = if opt && want.as_ref().map_or(false, |w| w.0.starts_with("(err arith")) { 300 } else { 6000 };
+            if attempts > cap {
                 break 'outer;
             }
             let cand = Program { types: cur.types.clone(), expr: c, ty: cur.ty.clone() };
@@ -213,6 +324,8 @@ fn main() {
     let mut rejected = 0u64;
     let mut n_shrunk = 0u32;
     let mut last_sexp_case: Option<u64> = None;
+    let mut permitted_skips = 0u64;
+    let mut off_agrees = false;
     let mut shrunk_per_class: std::collections::HashMap<String, u32> = std::collections::HashMap::new();
     let max_shrink: u32 = args.extra.get("max_shrink").and_then(|s| s.parse().ok()).unwrap_or(80);
     let styles = Style::all();
@@ -231,8 +344,29 @@ fn main() {
             }
             any = true;
             let oc = o.canonical();
-            // the same program is run in several styles / settings: "=" repeats the previous line
-            if last_sexp_case == Some(n_programs) {
+            let mut live = model.as_mut().map(|m| m.eval(&sexp));
+            if !opt {
+                off_agrees = live.as_deref() == Some(oc.as_str());
+            }
+            // C04's permitted difference (optimised runs only): an unused checked-arithmetic
+            // operation may be skipped.  The case is then compared against the reference outcome
+            // of the program with exactly those operations replaced by a literal.
+            let mut skipped: Option<String> = None;
+            if let (true, Some(mo), Some(m)) = (opt, live.as_ref(), model.as_mut()) {
+                if *mo != oc && mo.starts_with("(err arith") && off_agrees {
+                    if let Some(q) = permitted_arith_skip(m, p, &oc, 3) {
+                        skipped = Some(mg::sexp::program_to_sexp(&q));
+                    }
+                }
+            }
+            if let Some(q) = &skipped {
+                writeln!(model_in, "{}", q).unwrap();
+                last_sexp_case = None;
+                permitted_skips += 1;
+                hist.add("permitted-arith-skip");
+                live = Some(oc.clone());
+            } else if last_sexp_case == Some(n_programs) {
+                // the same program is run in several styles / settings: "=" repeats the previous line
                 writeln!(model_in, "=").unwrap();
             } else {
                 writeln!(model_in, "{}", sexp).unwrap();
@@ -241,18 +375,21 @@ fn main() {
             writeln!(impl_out, "{}", oc).unwrap();
             // the s-expression is line i of model_in.txt; keep the (bulky, mostly indentation)
             // source text only for small programs and for the first cases of a run
+            let mut cj = serde_json::json!({"family": family, "style": st.name(), "optimize": opt});
             if src.len() < 600 || n_cases < 400 {
-                writeln!(cases, "{}", serde_json::json!({"family": family, "style": st.name(), "optimize": opt, "source": src})).unwrap();
-            } else {
-                writeln!(cases, "{}", serde_json::json!({"family": family, "style": st.name(), "optimize": opt})).unwrap();
+                cj["source"] = serde_json::json!(src);
             }
+            if skipped.is_some() {
+                cj["permitted_arith_skip"] = serde_json::json!(true);
+                cj["original_sexp"] = serde_json::json!(sexp);
+            }
+            writeln!(cases, "{}", cj).unwrap();
             n_cases += 1;
             hist.add(&format!("family:{}", family));
             hist.add(&format!("style:{}", st.name()));
             hist.add(if opt { "optimize:on" } else { "optimize:off" });
             hist.add(&format!("impl:{}", o.class()));
-            if let Some(m) = model.as_mut() {
-                let mo = m.eval(&sexp);
+            if let (Some(m), Some(mo)) = (model.as_mut(), live.clone()) {
                 let prov = if mo != oc {
                     let msg: String = oc.split("hostpanic: ").nth(1).unwrap_or("").chars().take(20).collect();
                     let kind = classify_pair(&mo, &oc);
@@ -359,6 +496,7 @@ fn main() {
             "distinct_nontrivial": distinct.len(),
             "rule": "a case is (program, printer style, optimize on/off); distinct non-trivial = distinct programs (by s-expression) with more than one AST node and at least one binder (lambda, let, rec or a binding pattern)",
             "rejected_by_typechecker": rejected,
+            "permitted_arith_skips": permitted_skips,
             "exhaustive_max_size": enum_size,
             "exhaustive_programs": n_enum,
             "random_programs": n_random,
